@@ -8,7 +8,12 @@ def check_hx(pid, tier, seed):
     counts = props.counts_for(pid)
     agg = {"states": 0, "transitions": 0, "executions": 0, "generated": 0, "counters": {}, "samples": [], "legs": [], "violations": [], "collateral": {}, "known_hits": {}, "capped": False, "max_depth": 0, "outcomes": {}}
     for leg in legs:
-        binary = build("hx", leg["profile"], leg["features"])
+        san = leg["kw"].get("san")
+        if san == "asan":
+            # AddressSanitizer build (nightly): an oracle for out-of-bounds / use-after-free on the enumerated executions
+            binary = build("hx", leg["profile"], leg["features"], toolchain="nightly", rustflags_extra="-Zsanitizer=address", target_sub="asan", extra_args=("--target=x86_64-unknown-linux-gnu",))
+        else:
+            binary = build("hx", leg["profile"], leg["features"])
         if leg["fam"] == "LIMIT":
             # S-H: the 2^24 limit, scripted fill + all operation suffixes up to a depth
             depth = leg["kw"].get("depth", 2)
@@ -42,14 +47,17 @@ def check_hx(pid, tier, seed):
             continue
         fam = hxrun.FAMILIES[leg["fam"]]
         kw = dict(leg["kw"])
+        kw.pop("san", None)
+        env_extra = {"ASAN_OPTIONS": "detect_leaks=0:abort_on_error=0:halt_on_error=1:exitcode=77"} if san else None
+        hxrun.REPLAY_ENV = env_extra or {}
         if leg["fam"] == "SC" and "32_components" in leg["features"]:
             kw["narch"] = 32
         scenarios = fam(tier, **kw)
-        config = "%s[%s]" % (leg["profile"], ",".join(leg["features"]))
+        config = "%s[%s]%s" % (leg["profile"], ",".join(leg["features"]), "+asan" if san else "")
         for sc in scenarios:
             sc["props"] = leg["props"]
             limit = None if tier == "quick" else int(os.environ.get("VERIF_LEG_SECONDS", "1500"))
-            r = hxrun.run_leg(binary, sc, config, dfs_check_depth=3 if tier == "quick" else 4, max_seconds=limit)
+            r = hxrun.run_leg(binary, sc, config, dfs_check_depth=(0 if san else 3 if tier == "quick" else 4), max_seconds=limit, env_extra=env_extra)
             st = r["stats"]
             agg["states"] += st["unique_states"]
             agg["generated"] += st["generated_states"]
@@ -73,6 +81,7 @@ def check_hx(pid, tier, seed):
             agg["legs"].append({"scenario": sc["name"], "config": config, "archs": sc["archs"], "caps": sc["caps"], "max_live": sc["max_live"], "depth": sc["depth"],
                                 "unique_states": st["unique_states"], "transitions": st["transitions"], "max_depth_completed": st["max_depth"] if not st["capped"] else max(0, st["max_depth"] - 1),
                                 "capped": st["capped"], "wall_s": round(r["wall_s"], 2), "dfs_crosscheck": r.get("dfs_crosscheck")})
+            agg.setdefault("unconfirmed", []).extend(r.get("unconfirmed", []))
             for v in r["violations"]:
                 if v["prop"] == "HX":
                     raise MachineryError("harness failure in %s: %s\nhistory: %s" % (sc["name"], v["msg"], json.dumps(v["history"])))
@@ -124,6 +133,7 @@ def finish(pid, tier, seed, level, agg, t0, extra_cov=None, assumptions=None):
                 "outcomes": agg.get("outcomes", {}),
                 "known_findings_hit": agg.get("known_hits", {}),
                 "other_property_oracles_failed": agg.get("collateral", {}),
+                "observations_not_replaying_deterministically": agg.get("unconfirmed", [])[:5],
                 "explanation": agg.get("explanation", "")})
     if extra_cov:
         cov.update(extra_cov)
@@ -148,6 +158,8 @@ def cmd_check(pid, tier):
             level = props.META[pid][0]
             agg = check_hx(pid, tier, seed)
             if not agg["violations"]:
+                if agg.get("unconfirmed"):
+                    raise MachineryError("violations were observed that do not replay deterministically, and nothing else was found: " + " | ".join(agg["unconfirmed"][:3]))
                 props.vacuity(pid, agg)
             return finish(pid, tier, seed, level, agg, t0)
         import others
